@@ -1,4 +1,5 @@
 """C04 - refresh is never starved and keeps the datasheet rate (structural necessary conditions)."""
+import re
 from ..ruleutil import *
 from ..report import Ctx
 from .c03 import BMRoles, MuxRoles, REFR
@@ -63,7 +64,12 @@ def timers(ctx):
             ob.refute("period:%s" % t, "%s has period %s cycles, not its parameter %s" % (t, key(period), key(arg)), t.loc)
         if not isz:
             if not (isinstance(arg, Sym) and arg.path == "settings.timing.tREFI"):
-                ob.refute("trefi-param", "the refresh timer is built from %s, expected settings.timing.tREFI" % key(arg), t.loc)
+                la = lin(arg)
+                if la is not None and all(len(m_) <= 1 and all(a_.startswith("settings.timing.") for a_ in m_) for m_ in la.t):
+                    ob.refute("trefi-param", "the refresh timer is built from %s, expected settings.timing.tREFI" % key(arg), t.loc)
+                else:
+                    ob.unknown("the refresh timer is built from %s and not from settings.timing.tREFI alone: a different division of work between timer and "
+                               "postponer, the average rate is not decided by this rule" % key(arg))
             wd = r.drivers(wait)
             sup = set()
             for d in wd:
@@ -159,6 +165,30 @@ def _expand_all(v, t_, depth=6):
     return t_
 
 
+_TRAFFIC = re.compile(r"choose_|bm\d+\.cmd|bank_machines|_available|\.req\.|cmd_buffer|max_time")
+
+
+def _covered(exits, free):
+    """the exits, taken together, are open whenever every `free` condition holds (e.g. one exit per value of a mode flag)"""
+    extra = sorted({a.lstrip("~") for g in exits for a in g} - {a.lstrip("~") for a in free})
+    if not extra or len(extra) > 8:
+        return False
+    if any(a.startswith("~") for a in free):
+        return False
+    import itertools
+    for vals in itertools.product((False, True), repeat=len(extra)):
+        env = dict(zip(extra, vals))
+        def sat(a):
+            neg = a.startswith("~")
+            n = a.lstrip("~")
+            if n in env:
+                return env[n] != neg
+            return not neg          # a free condition, assumed to hold
+        if not any(all(sat(a) for a in g) for g in exits):
+            return False
+    return True
+
+
 def priority(ctx):
     ob = ctx.ob("C04.3", "priority: in the bank machine's idle/column state the refresh request is tested first and alone (guard = {refresh_req}), "
                          "everything else there is under ~refresh_req; in the multiplexer's read/write states the go_to_refresh transition is "
@@ -197,11 +227,17 @@ def priority(ctx):
             outs = [l for (src, d, l) in R.edges if src == s]
             cmdk = key(R.cmd)
             allowed = {cmdk + ".ready"} | {key(g.attrs["ready"]) for g in R.gates.values()}
-            okk = any(v.guard_keys(l, False) <= allowed for l in outs)
-            ob.instance("auto_precharge=%s: state %s exits" % (ap, s), [sorted(v.guard_keys(l, False)) for l in outs])
+            exits = [v.guard_keys(l, False) for l in outs]
+            okk = any(g <= allowed for g in exits) or _covered(exits, allowed)
+            ob.instance("auto_precharge=%s: state %s exits" % (ap, s), [sorted(g) for g in exits])
             if outs and not okk:
-                ob.refute("bm-wait:%s" % s, "state %s can only be left under %s: depends on more than timing gates / command acceptance" %
-                          (s, [sorted(v.guard_keys(l, False)) for l in outs]), outs[0].loc)
+                qd = re.compile(r"cmd_buffer|lookahead|req\.|row_hit|refresh_req")
+                if all(any(qd.search(a) for a in g - allowed) for g in exits):
+                    ob.refute("bm-wait:%s" % s, "state %s can only be left under %s: depends on more than timing gates / command acceptance" %
+                              (s, [sorted(g) for g in exits]), outs[0].loc)
+                else:
+                    ob.unknown("auto_precharge=%s: state %s is left under %s: whether these conditions come true in bounded time is not decided" %
+                               (ap, s, [sorted(g) for g in exits]))
     for nph in (1, 4):
         M = MuxRoles(ctx, ob, nph)
         if not M.ok:
@@ -233,11 +269,18 @@ def priority(ctx):
             if s in (M.read_state, M.write_state):
                 continue
             outs = [l for (src, d, l) in M.edges if src == s]
-            okk = any(v.guard_keys(l) <= gates | {"refresher.cmd.last"} for l in outs)
-            ob.instance("nphases=%d: state %s exits" % (nph, s), [sorted(v.guard_keys(l)) for l in outs])
+            free = gates | {"refresher.cmd.last"}
+            exits = [v.guard_keys(l) for l in outs]
+            okk = any(g <= free for g in exits) or _covered(exits, free)
+            ob.instance("nphases=%d: state %s exits" % (nph, s), [sorted(g) for g in exits])
             if not okk:
-                ob.refute("mux-wait:%s:%d" % (s, nph), "multiplexer state %s has no exit independent of port traffic: %s" %
-                          (s, [sorted(v.guard_keys(l)) for l in outs]), M.fsm.acts[s][0].loc)
+                # positive witness only: every exit waits for something the ports decide (a request being presented / accepted)
+                if exits and all(any(_TRAFFIC.search(a) for a in g - free) for g in exits):
+                    ob.refute("mux-wait:%s:%d" % (s, nph), "multiplexer state %s has no exit independent of port traffic: %s" %
+                              (s, [sorted(g) for g in exits]), M.fsm.acts[s][0].loc)
+                else:
+                    ob.unknown("nphases=%d: multiplexer state %s is left under %s: whether these conditions come true without port traffic is not decided" %
+                               (nph, s, [sorted(g) for g in exits]))
         for nm, (t, d, loc) in M.delayed.items():
             ob.instance("nphases=%d: delayed chain %s -> %s" % (nph, nm, t), key(d))
 
